@@ -234,8 +234,13 @@ PREDICATES = ("::is_empty", "::ends_with", "::starts_with", "::eq", "::ne", "::c
 def shapes_text(fn, call):
     """does the result of a trimming call decide what text is emitted / consumed (it reaches `advance`, a TemplateData
     token or the function's returned text), as opposed to only feeding a test (`prefix.trim_end_matches(' ').is_empty()`)"""
+    return shapes_how(fn, call) is not None
+
+
+def shapes_how(fn, call):
+    """how: "data" (a TemplateData token), "advance" (the cursor), "return" (the function's result) or None"""
     if call.dest is None or "p" in call.dest:
-        return True
+        return "return"
     tainted = {call.dest["l"]}
     ret_text = "str" in fn.locals[0].get("s", "") or fn.locals[0].get("prim") == "str"
     for _ in range(12):
@@ -251,10 +256,10 @@ def shapes_text(fn, call):
             if not hit:
                 continue
             if rv["k"] == "agg" and rv.get("variant") == "TemplateData":
-                return True
+                return "data"
             l = st["place"]["l"]
             if l == 0 and (ret_text or True):
-                return True
+                return "return"
             if l not in tainted:
                 tainted.add(l)
                 grew = True
@@ -264,32 +269,69 @@ def shapes_text(fn, call):
             if not any(op_place(a) is not None and op_place(a)["l"] in tainted for a in c.args):
                 continue
             if c.name.endswith("Tokenizer::advance") or c.name.endswith("::advance"):
-                return True
+                return "advance"
             if c.name.endswith(PREDICATES):
                 continue
             if c.dest is not None:
                 l = c.dest["l"]
                 if l == 0:
-                    return True
+                    return "return"
                 if l not in tainted:
                     tainted.add(l)
                     grew = True
         if not grew:
             break
-    return False
+    return None
+
+
+def trimmed_passthrough(prog, g):
+    """side of the trimming when g is a private text-to-text helper that hands back its argument with whitespace trimmed
+    off and touches nothing else (`fn skip_ws(s: &str) -> &str { s.trim_start_matches(..) }`): what that removes is
+    judged where the helper is called"""
+    cached = getattr(g, "_c10_tp", 0)
+    if cached != 0:
+        return cached
+    side = None
+    if g.kind != "closure" and not g.is_pub and g.argc == 1 and "str" in g.locals[0].get("s", "") and g.nblocks <= 12:
+        trims = [c for c in g.calls() if c.name in TRIM_STR]
+        others = [c for c in g.calls() if c.name not in TRIM_STR and not c.name.endswith(("::deref", "::as_ref", "::borrow"))
+                  and prog.fns.get(c.resolved or c.path) is not None and prog.fns[c.resolved or c.path].kind != "closure"]
+        if len(trims) == 1 and not others and shapes_how(g, trims[0]) == "return" and not list(flow.stores(g)):
+            n = trims[0].name
+            side = "tail" if n in TAIL_TRIM else ("head" if n in HEAD_TRIM else "both")
+    g._c10_tp = side
+    return side
+
+
+def tag_recogniser(fn):
+    """a function that decodes a marker from text and returns it (`-> Option<(usize, Whitespace)>`): it matches the
+    inside of a tag, it does not hold template data"""
+    r = fn if fn.kind != "closure" else None
+    return r is not None and "Whitespace" in r.locals[0].get("s", "") and "Tokenizer" not in r.locals[0].get("s", "")
+
+
+IN_TAG_SKIPS = []
 
 
 def actions_of(roles, prog, fn):
     out = []
-    if roles.primitive(fn):
+    if roles.primitive(fn) or trimmed_passthrough(prog, fn):
         return out
     for c in fn.calls():
         n = c.name
-        if n in TRIM_STR:
-            if not shapes_text(fn, c):
+        g_ = prog.fns.get(c.resolved or c.path) if n not in TRIM_STR else None
+        via = trimmed_passthrough(prog, g_) if g_ is not None and g_.path.startswith(LEX) else None
+        if n in TRIM_STR or via:
+            how = shapes_how(fn, c)
+            if how is None:
                 continue            # a trimmed copy that only feeds a test removes nothing from the output
-            side = "tail" if n in TAIL_TRIM else ("head" if n in HEAD_TRIM else "both")
-            out.append(Action("TRIM", side, fn, c.bb, n.rsplit("::", 1)[1]))
+            side = via or ("tail" if n in TAIL_TRIM else ("head" if n in HEAD_TRIM else "both"))
+            if side == "tail" and how == "return" and tag_recogniser(fn):
+                # moving forward over the blanks between a delimiter, the tag name and the marker while matching a tag:
+                # that whitespace is inside the tag, not next to it
+                IN_TAG_SKIPS.append((fn.path, c.bb))
+                continue
+            out.append(Action("TRIM", side, fn, c.bb, ("via " + n.rsplit("::", 1)[1]) if via else n.rsplit("::", 1)[1]))
         elif n in roles.skipper:
             out.append(Action("TRIM", "tail", fn, c.bb, "call " + n.rsplit("::", 1)[1]))
         elif n in roles.lstrip:
@@ -971,6 +1013,7 @@ def run(ctx):
     for cfgname in ctx.configs():
         prog = ctx.program(cfgname)
         roles = Roles(ctx, prog)
+        del IN_TAG_SKIPS[:]
         if cfgname == "MAX":
             ctx.count("lexer functions", len(roles.fns))
             ctx.sample({"roles": {"lstrip": roles.lstrip, "skipper": roles.skipper, "newline-skipper": roles.nlskip,
@@ -987,6 +1030,8 @@ def run(ctx):
         n11 = check_indentation_sets(ctx, prog, roles, cfgname)
         n12 = check_search_resume(ctx, prog, roles, cfgname)
         ctx.count("C10.E12 search loops" + tag_of(cfgname), n12)
+        ctx.count("C10.E1 in-tag blank skips of tag recognisers (not whitespace next to a tag)" + tag_of(cfgname),
+                  len(set(IN_TAG_SKIPS)))
         ctx.count("C10.E11 functions that single out the space" + tag_of(cfgname), n11)
         if cfgname == "MAX":
             check_literals(ctx, prog, roles, cfgname)
